@@ -304,6 +304,14 @@ where Assets: Satisfier<Pk>
                         hex(script.as_bytes()), wit_wire(wit), mode, w, aw),
                     "ok",
                 );
+                out.line(&format!("C fragsame {} {} {} {} {}", ctx.name(), lt, sq, w, wit_wire(wit)), "same");
+                // and on a damaged witness (error paths must agree too)
+                if !wit.is_empty() {
+                    let mut bad = wit.clone();
+                    let i = out.n_lines as usize % bad.len();
+                    bad[i] = if bad[i].is_empty() { vec![1] } else { vec![] };
+                    out.line(&format!("C fragsame {} {} {} {} {}", ctx.name(), lt, sq, w, wit_wire(&bad)), "same");
+                }
             }
             Some(wit.clone())
         }
